@@ -72,6 +72,7 @@ def check(ctx):
     if len(digs) != 3:
         ctx.ob('R1', fi, 'digitize calls', None, f'{len(digs)} digitize calls instead of one per axis')
     extents = {}
+    n_values = {}
     for e in digs:
         x, bins = e['x'], e['bins']
         xa = x.axis if x is not None else None
@@ -109,6 +110,7 @@ def check(ctx):
             else:
                 n_sym = sl[1]
                 extents[xa] = n_sym
+                n_values[xa] = bins.lin_n
                 ctx.ob('R2', fi, e['node'], True, 'n - 1 edges over (0, 1]: wrapped coordinates digitise into [0, n - 2]')
         else:
             ctx.ob('R2', fi, e['node'], None, 'edge array is not linspace(0, 1, n)[1:]')
@@ -117,8 +119,24 @@ def check(ctx):
     for k, nsym in sorted(extents.items()):
         name = nsym[1] if nsym[0] == 'v' else None
         expr = env.get(name) if name else None
-        if expr is None:
-            ctx.ob('R2', fi, f'grid size axis {k}', None, 'number of edges is not a named expression')
+        arithmetic_ = expr is not None and (isinstance(expr, (ast.BinOp, ast.Constant)) or (isinstance(expr, ast.Call) and norm_text(expr.func) in ('int', 'round', 'math.ceil', 'math.floor')))
+        if not arithmetic_:
+            # decide on the abstract value of n: its normal form must be 1 + floor(L_k / resolution)
+            nv = n_values.get(k)
+            mt = nv.mono.text() if (nv is not None and nv.mono is not None) else None
+            if mt is None or (nv is not None and nv.mono_unknown):
+                ctx.ob('R2', fi, f'grid size axis {k}', None, 'number of edges is not a named expression and has no derivable normal form')
+            elif mt.replace(' ', '') in ('floor(len*param:resolution^-1)*offset+1',):
+                ctx.ob('R2', fi, f'grid size axis {k}', True, f'n = 1 + L // resolution along axis {k}')
+                if nv.axis is not None:
+                    ctx.ob('R1', fi, f'grid size axis {k} [length]', nv.axis == k, f'cell length of axis {k}' if nv.axis == k else
+                           f'grid size of axis {k} is computed from the cell length of axis {nv.axis}')
+            elif 'len' in mt and 'resolution' in mt and 'floor(' not in mt:
+                ctx.ob('R2', fi, f'grid size axis {k}', False,
+                       f'number of edges along axis {k} has the form `{mt}`, not 1 + floor(L / resolution): rounding to nearest (or plain division) gives one voxel '
+                       f'too many whenever the remainder exceeds one half, so the voxel edge drops below the requested resolution')
+            else:
+                ctx.ob('R2', fi, f'grid size axis {k}', None, f'number of edges has the form `{mt}`')
             continue
         lin = linear(expr)
         want_atom = [a for a in (lin[0] if lin else {}) if '//' in a]
@@ -186,6 +204,23 @@ def check(ctx):
             ok = axes == [0, 1, 2]
             ctx.ob('R1', fi, e['node'], ok if None not in axes else None,
                    'index position k holds the digitised coordinate of axis k' if ok else f'index positions hold axes {axes}')
+        # R4: a plain assignment executed once per block / iteration overwrites the counts of earlier blocks
+        if e['kind'] == 'sub' and e.get('stmt') is not None:
+            pm_ = {}
+            for n_ in ast.walk(e['where'].node):
+                for c_ in ast.iter_child_nodes(n_):
+                    pm_[id(c_)] = n_
+            cur_, in_loop = e['stmt'], None
+            while id(cur_) in pm_:
+                cur_ = pm_[id(cur_)]
+                if isinstance(cur_, (ast.For, ast.While)):
+                    in_loop = cur_
+                    break
+            zero_alloc = next((n_ for n_ in ast.walk(e['where'].node) if isinstance(n_, ast.Call) and norm_text(n_.func).split('.')[-1] in ('zeros', 'empty', 'full')
+                               and in_loop is not None and any(x is n_ for x in ast.walk(in_loop))), None)
+            if in_loop is not None and zero_alloc is None and val is not None and val.counts_of is not None:
+                ctx.ob('R4', fi, e['node'], False, 'the counts of one block of samples are assigned (not added) inside a loop over blocks: a voxel visited in '
+                                                   'several blocks keeps only the count of the last one, the voxel sum falls below frames x atoms')
         # R4 counts
         src = val.counts_of if val is not None else None
         ok = src is not None and src.rows is None and (src.colvals is not None) and all(c.digit is not None for c in src.colvals)
